@@ -186,7 +186,9 @@ func opVersionToSpan(typ tokType, op string, lo *Version) (span, error) {
 
 	case tokLess:
 		// Special horrible cases.
-		if lo.all(wildcard) || lo.all(0) {
+		if lo.all(wildcard) || lo.all(0) && len(lo.pre) == 0 {
+			// Nothing is below * or 0.0.0, but prereleases
+			// of 0.0.0 are below 0.0.0-pre.
 			return span{rank: empty}, nil
 		}
 		for i, val := range hi.num {
